@@ -2,7 +2,8 @@ use crate::data;
 use crate::operator::{AggregateFunction, Data, EvalError, Evaluate, Expr};
 
 pub struct Min {
-    min: f64,
+    /// the minimum of the other numeric values; None until one is seen (NaN is no candidate)
+    min: Option<f64>,
     /// the minimum of the integer values, kept exactly: not every i64 is a double
     min_int: Option<i64>,
     column: Expr,
@@ -11,7 +12,7 @@ pub struct Min {
 impl Min {
     pub fn empty<T: Into<Expr>>(column: T) -> Min {
         Min {
-            min: std::f64::INFINITY,
+            min: None,
             min_int: None,
             column: column.into(),
         }
@@ -36,8 +37,8 @@ impl AggregateFunction for Min {
                 }
             }
             None => {
-                if value < self.min {
-                    self.min = value;
+                if !value.is_nan() && self.min.map_or(true, |seen| value < seen) {
+                    self.min = Some(value);
                 }
             }
         }
@@ -45,12 +46,7 @@ impl AggregateFunction for Min {
     }
 
     fn emit(&self) -> data::Value {
-        // the initial value means that no float was seen; an infinite minimum that was seen is a value
-        let of_floats = if self.min != std::f64::INFINITY {
-            Some(data::Value::from_float(self.min))
-        } else {
-            None
-        };
+        let of_floats = self.min.map(data::Value::from_float);
         match (self.min_int.map(data::Value::Int), of_floats) {
             (Some(i), Some(f)) => i.min(f),
             (Some(v), None) | (None, Some(v)) => v,
